@@ -2,7 +2,8 @@
 import json, os, subprocess
 import vlib
 
-TB = ["Print Assumptions: C04_generic, C04_generic_converse, C04_atomic closed under the global context",
+TB = ["Print Assumptions: C04_generic, C04_generic_converse, C04_atomic, C04_commit_atomic_under_cancellation, C04_commit_inner_guard_refuted closed under the global context",
+      "C04_commit_atomic_under_cancellation is instantiated with the scope of the run-to-completion wrapper `.guarded()` inside InputSession::commit read from input_session.rs on this run (whole block / propagation only / none); its step model Conc/CommitCancel.v has three steps (take, propagate, release) and does not model tokio or fast_async_guard: that a guarded future really runs to completion once polled is validated by the cancelled-commit rounds of `engine c04`",
       "protocol model Conc/PhaseLock.v (lock/batch/bump/stamp of the writer, lock/load of readers, arbitrary scheduler, any number of readers); C04_atomic is instantiated with the ORDER of those calls read from database/sync.rs on this run (tools/gen_sources.py, fixed code shape: first occurrence of write_owned/new_write_batch/fetch_add/timestamp_map.insert and read_owned/load inside the two functions)",
       "H-atomic: tokio RwLock gives mutual exclusion between write_owned and read_owned guards; AtomicU64 SeqCst; the guard is released only by dropping the session/tracked engine (a dropped session commits in a spawned task that keeps the guard)",
       "partial: that the Rust futures take exactly these steps and make progress (tokio fairness) is validated by the stress run (no stale answer after an own commit, no torn or unstable snapshot, writer waits for a pinned reader and proceeds after it is dropped; a commit() future dropped after 1-4 polls while a reader waits in tracked(): the reader sees the whole session through a chain of 250 queries), not proved",
@@ -33,6 +34,7 @@ def bad(r):
 def run(ctx):
     vlib.sh(["python3", os.path.join(vlib.VERIF, "tools", "gen_sources.py")], check=True)
     order = open(os.path.join(vlib.COQ, "theories", "Generated", "PhaseOrder.v")).read()
+    scope = open(os.path.join(vlib.COQ, "theories", "Generated", "CommitGuardScope.v")).read()
     ok, info = vlib.prove_stage("C04")
     rc, out, _ = vlib.cargo_build(["engine"])
     if rc != 0:
@@ -55,8 +57,8 @@ def run(ctx):
         if hit:
             ctx.violation("snapshot_violation.json", {"what": hit[0][0], "run": hit[0][1], "scanned_order": order})
         else:
-            ctx.violation("broken_obligation.json", {"no_longer_checks": "theorem C04_atomic (Properties/C04.v) for the order scanned from database/sync.rs: " + str(info.get("failed_at", info.get("property_log", "?")))[:300],
-                                                     "scanned_order": order, "search": "3 x 20 s stress runs found no stale/torn/unstable snapshot",
+            ctx.violation("broken_obligation.json", {"no_longer_checks": "theorem C04_atomic / C04_commit_atomic_under_cancellation (Properties/C04.v) for the order scanned from database/sync.rs and the guard scope scanned from input_session.rs: " + str(info.get("failed_at", info.get("property_log", "?")))[:300],
+                                                     "scanned_order": order, "scanned_guard_scope": scope, "search": "3 x 20 s stress runs found no stale/torn/unstable snapshot",
                                                      "make_tail": info.get("make_tail", "")[-1200:], "property_log": info.get("property_log", "")[-1200:]}, found_input=False)
     sessions = sum(r.get("sessions", 0) for r in results)
     rounds = sum(r.get("reader_rounds", 0) for r in results)
